@@ -293,6 +293,8 @@ CHECKS["C17"] = dict(
                 "access key followed by a lookup after each call - the lookup returns exactly the store's account (all five attributes) or no-such-user.",
     harnesses=[
         dict(name="H17a-cache", pkgs=["./auth"], entry="auth.VfIAMCache", reach=["lookup-of-existing-account"]),
+        dict(name="H17b-race", pkgs=["./auth"], entry="auth.VfIAMRace", reach=["later-lookup-of-existing-account"],
+             key_inputs=["first_request", "second_request", "schedule"]),
     ],
     assumptions=["time.Now = arbitrary non-decreasing seconds", "single gateway process, sequential calls"],
     outside=["interleavings of a lookup (miss in flight) with delete/update (H17b: not built)", "the file-backed account store (iam_internal.go)", "other IAM back ends"],
